@@ -21,7 +21,8 @@ EXPLANATION = (
     ' (R7) who-may-delete census (C09.R3); (R8) no function the collector reaches (metadata resolution, manifest readers, backends) converts a failure into a default answer.'
     ' (R9) the manifest parsers drop no entry (C14.R7).'
     " (R12) recovery orders versions as integers; (R13) strict metadata decoder; (R14) no lexical path normalisation before the collector's `..` guard (C17.R4). R1 accepts a handler that guards a pure computation and raises on every path."
-    " (R16) the legacy marker target is comparable with listed paths (C05.R2); R3 requires the '..' guard to test the NORMALISED path; R1 follows sentinel results (NaN) of stat helpers through the comparisons that use them.")
+    " (R16) the legacy marker target is comparable with listed paths (C05.R2); R3 requires the '..' guard to test the NORMALISED path; R1 follows sentinel results (NaN) of stat helpers through the comparisons that use them."
+    " (R17) the listing the sweep iterates is materialised inside the (retried) listing operation - never a generator whose later pages are fetched between deletions (C20.R8). R3 accepts the two-pass form (entries screened by the '..' guard into a list that the classification loop iterates).")
 NOT_DECIDED = "run-time fault enumeration; corruption classes of files that still parse"
 
 GC = "garbage_collector.GarbageCollector"
